@@ -64,3 +64,27 @@ package cgroup
 //@   assigns nothing
 //@   loop 0: invariant -1 <= rangeindex && rangeindex < len(procs) && f != nil
 //@   callsite WriteString: assert @C20 s == itoa(procs[rangeindex + 1])
+
+// ---- Random: like MkdirTemp, the group returned is one this call created ----
+//@ spec cg_existing(c Cgroup) bool
+//@ func iface:pkg/cgroup.Cgroup.Existing
+//@   assumed "the handle's existing flag; a function of the handle"
+//@   params c
+//@   pure
+//@   ensures result == cg_existing(c)
+//@ func funcvalue:pkg/cgroup.randomBuild.build
+//@   assumed "the builder handed to randomBuild (V1.New / V2.New / newV1 / newV2 closures): a handle on success"
+//@   pure
+//@   ensures result.1 == nil ==> result.0 != nil
+//@ func pkg/cgroup.nextRandom
+//@   trusted "decimal text of a random 31-bit number"
+//@   pure
+//@ func pkg/cgroup.prefixAndSuffix
+//@   trusted "splits the pattern at its last *"
+//@   pure
+//@ func pkg/cgroup.randomBuild props C20
+//@   arith int
+//@   requires build != nil
+//@   assigns nothing
+//@   ensures result.1 == nil ==> result.0 != nil && !cg_existing(result.0)
+//@   loop 0: invariant 0 <= try && try < 10000
